@@ -183,7 +183,7 @@ inline LenInfo contentLengthValue(std::string_view v)
     have = true;
     first = n;
   }
-  if (parts.size() > 1) { li.kind = LenKind::Unsupported; li.why = "identical content-length list (MAY accept)"; return li; }
+  if (parts.size() > 1) { li.kind = LenKind::Unsupported; li.n = first; li.why = "identical content-length list (MAY accept)"; return li; }
   li.kind = LenKind::Length;
   li.n = first;
   return li;
@@ -364,8 +364,9 @@ inline int duplicateCheck(const std::vector<Field> &f)
         {
           // conflicting = an invalid value or two different numbers; "0" next to "000" is the same length
           // (a recipient MAY accept or reject identical repeats: no verdict)
-          std::uint64_t a = 0, b = 0;
-          if (parseDec(f[i].value, a) != 0 || parseDec(f[j].value, b) != 0 || a != b) return 1;
+          // each line may itself be a comma list
+          LenInfo a = contentLengthValue(f[i].value), b = contentLengthValue(f[j].value);
+          if (a.kind == LenKind::Bad || b.kind == LenKind::Bad || a.n != b.n) return 1;
         }
         rc = 2;
       }
